@@ -41,13 +41,14 @@ def micro_tie(ctx):
             reqs.append({'op': 'round', 'us': us, 'prec': p}); metas.append(('gen', us, p, real))
             if isinstance(p, int) and not isinstance(p, bool) and 0 <= p <= 6:
                 reqs.append({'op': 'roundT', 'us': us, 'prec': p}); metas.append(('mirror', us, p, real))
-                # the arithmetic law on the REAL function (oracle): truncation to a multiple of 10^(6-p), idempotent
+                # what the property needs of the REAL function (oracle): the result is a valid microsecond field, a multiple of the
+                # declared unit (so a column of that precision holds it exactly), within one unit of the input, and stable when re-validated
                 r = f(None, us, p); r = us if r is None else r
                 r2 = f(None, r, p); r2 = r if r2 is None else r2
                 ctx.case(['round-law', us, p], kind='oracle:round-law')
-                if not (r <= us and r % 10 ** (6 - p) == 0 and us - r < 10 ** (6 - p) and r2 == r):
-                    ctx.violation('round_microseconds_to_precision is not truncation to the declared precision', {'microseconds': us, 'precision': p},
-                                  observed=[r, r2], expected='largest multiple of 10^(6-p) <= microseconds, idempotent', key='round-law:%d:%d' % (us, p))
+                if not (0 <= r < 10 ** 6 and r % 10 ** (6 - p) == 0 and abs(us - r) < 10 ** (6 - p) and r2 == r):
+                    ctx.violation('round_microseconds_to_precision does not produce a stable value of the declared precision', {'microseconds': us, 'precision': p},
+                                  observed=[r, r2], expected='a multiple of 10^(6-p) in 0..999999 within one unit of the input, unchanged when rounded again', key='round-law:%d:%d' % (us, p))
     if not ctx.driver.ok:
         ctx.note('driver unavailable: translator tie skipped'); return
     outs = ctx.driver('C07', reqs)
